@@ -176,7 +176,13 @@ def mutate(rng, rows):
         for r in rows:
             if r and r[0].strip() == "name" and len(r) > 2:
                 a = rng.randrange(1, len(r))
-                r[a] = rng.choice([r[rng.randrange(1, len(r))], "", " " + r[a] + " "])
+                # another column's name, no name (the default `column_<letter>` is used), padded name, or - the corner -
+                # an explicit name that IS the default name of some (earlier or later) column
+                r[a] = rng.choice([r[rng.randrange(1, len(r))], "", " " + r[a] + " ",
+                                   "column_" + "ABCDEFG"[rng.randrange(1, len(r))], "column_" + "ABCDEFG"[rng.randrange(1, len(r))]])
+                if rng.random() < 0.6:
+                    b = rng.randrange(1, len(r))
+                    r[b] = rng.choice(["", "", "column_" + "ABCDEFG"[rng.randrange(1, len(r))]])
     elif k < 0.93:  # consistent depth / matrix / lossless changes
         for r in rows:
             if r and r[0].strip() in ("dwt_depth", "dwt_depth_ho", "lossless", "quantization_matrix", "picture_bytes") and rng.random() < 0.5:
